@@ -218,6 +218,17 @@ func (fe *FE) Run() {
 		fe.assumeExpr(st, ac, ax.E, "axiom")
 		fe.usedAsm[fmt.Sprintf("axiom %s (%s:%d)", ax.Src, shortFile(ax.File), ax.Line)] = true
 	}
+	for _, en := range fe.C.Entry {
+		switch en {
+		case "nolocks":
+			// meta-argument LB (lock balance): API entry points are entered holding none of gengine's internal locks
+			fe.heapTerm(st, "G_held", arraySort([]string{SInt}, SBool))
+			st.assume("(= G_held!0 ((as const (Array Int Bool)) false))")
+			fe.usedAsm["entry nolocks: API entry point is entered with no internal lock held (meta-argument LB: every function under contract releases what it takes; user code never runs under an internal lock)"] = true
+		default:
+			fe.errorf("unknown entry assumption %q", en)
+		}
+	}
 	for i, r := range fe.C.Requires {
 		fe.assumeExpr(st, ctx, r.E, fmt.Sprintf("requires %d", i))
 	}
@@ -1018,7 +1029,7 @@ func (fe *FE) execBinOp(st *State, x *ssa.BinOp, site string) Val {
 	case a.Sort == SStr && b.Sort == SStr:
 		switch x.Op {
 		case token.ADD:
-			return scalar("(concat "+a.T+" "+b.T+")", SStr, t)
+			return scalar("(strcat "+a.T+" "+b.T+")", SStr, t)
 		case token.LSS:
 			return scalar("(strlt "+a.T+" "+b.T+")", SBool, boolT)
 		case token.GTR:
